@@ -172,13 +172,13 @@ PROPS.update({
     'C10': P('other', 'contract-based deductive verification of Task.clone: symbolically executed from the real source with instance attributes as a per-object map; proved: the copy is a new object, same id / estimate / spent, '
              'exactly the public instance attributes of the source with equal values (loop invariant over the keys of __dict__), no relations, source and all other tasks unchanged. '
              'WBS.__clone (new-WBS assembly and WBS attribute copy, WBS attributes as a per-object map): the result is a new WBS, the roots setter of the copy is handed exactly the clones (looked up by id in the dict of __clone_tasks, no KeyError) of the given roots in their order, '
-             'exactly the public attributes of the source WBS are carried over with their values (loop invariant) and no WBS that existed before changes an attribute; WBS.clone hands exactly its own root list to __clone. '
-             'Level `other`: WBS.__clone_tasks (re-wiring hierarchy, sibling order and links, owner) and subtree are covered by the bounded stand-in only; the contract of __clone_tasks used by __clone is assumed.',
-             ['WBS.__clone_tasks', 'WBS.subtree', '_to_list'], ['contract of the Task constructor with id/estimate/spent keywords (fresh object, default public attributes, no relations)',
+             'exactly the public attributes of the source WBS are carried over with their values (loop invariant) and no WBS that existed before changes an attribute; WBS.clone hands exactly its own root list to __clone, WBS.subtree (operand a list of tasks) exactly the named tasks in their order (_to_list). '
+             'Level `other`: WBS.__clone_tasks (re-wiring hierarchy, sibling order and links, owner; which links a selection keeps) is covered by the bounded stand-in only; the contract of __clone_tasks used by __clone is assumed.',
+             ['WBS.__clone_tasks', 'WBS.subtree with a single task as operand'], ['contract of the Task constructor with id/estimate/spent keywords (fresh object, default public attributes, no relations)',
               'assumed contract of WBS.__clone_tasks at its call in WBS.__clone: returns a dict holding an entry under the id of every given root and touches no WBS attribute',
               'assumed contract of WBS() at its call in WBS.__clone: a fresh WBS whose only instance attribute is the private _WBS__root (the constructor unit in contracts/children.py proves the graph view, not the attribute map)',
               'roots setter at its call in WBS.__clone: only the list it is handed is recorded (its graph effect is proved by its own unit, contracts/children.py); it may refuse',
-              '`roots` is a re-iterable sequence of tasks (both callers pass lists); WBS.roots returns a list of tasks without None (graph invariant)'],
+              '_to_list at its call in WBS.subtree: a list of tasks without None comes back with the same tasks in the same order (the clause proved for _to_list in contracts/small.py, restated)', '`roots` is a re-iterable sequence of tasks (both callers pass lists); WBS.roots returns a list of tasks without None (graph invariant)'],
              ['pre-condition: clone() is called without extra keyword arguments (as WBS.__clone_tasks does)', 'outside task sharing an id with a member: known finding A-22'], design_ref='8/C10'),
     'C19': P('other', 'reduced scope (DESIGN.md section 10). Contract-based deductive verification of the value-level clauses that live in pjplan code: MermaidGantt.__mermaid_task_state returns the milestone flag exactly for '
              'milestones and the done/active token from the dates; the progress computation of DhtmlxGantt.__data (statements taken from the real AST) yields a value within 0..1 for every scheduled task and never raises. '
